@@ -1253,7 +1253,140 @@ def run(rep: Report, ctx: Any) -> str:
     keyword_glue(rep, ctx, "R01.11")
     # ---- R01.12 -------------------------------------------------------------------------------------------------------------------------
     _names_bound(rep, ctx, universe)
+    # ---- R01.13 -------------------------------------------------------------------------------------------------------------------------
+    _imports_conserved(rep, ctx)
     return LEVEL
+
+
+# ---- R01.13 ---------------------------------------------------------------------------------------------------------------------------
+# R01.1 decides that the import lines a kind's get_imports / get_lazy_imports returns cover the names its generated code uses.  That is
+# worth what reaches the host module: between those methods and the template loop that prints the host's import set, the lines are
+# collected (update, |=, union, copies) and must not be lost.  The one line a host may drop is the import of its own module (the class
+# is defined there).  Stated for every function of the package and every template: a value that holds import lines - the result of
+# get_imports / get_lazy_imports, the attributes and parameters relative_imports / lazy_imports, locals made from them - is never
+# narrowed (set difference / intersection, discard / remove / pop / clear, a comprehension, loop or filter() with a condition on the
+# line, a template filter other than an ordering one, a loop filter) by anything but a test against the host's `self_import`.
+_IMPORT_SOURCES = ("get_imports", "get_lazy_imports")
+_IMPORT_SLOTS = ("relative_imports", "lazy_imports")
+_SAME_LINES = ("set", "frozenset", "list", "tuple", "sorted", "copy", "union", "chain")
+_NARROWING_CALLS = ("difference", "difference_update", "intersection", "intersection_update", "symmetric_difference",
+                    "symmetric_difference_update", "discard", "remove", "pop", "clear")
+_OWN_MODULE = "self_import"
+
+
+def _imports_conserved(rep: Report, ctx: Any) -> None:
+    from ..astutil import bool_atoms
+
+    rep.rule("R01.13", "import lines are conserved: between get_imports / get_lazy_imports and the template loop that prints a host's "
+                       "relative_imports / lazy_imports, a set of import lines is only ever narrowed by the test against the host's own "
+                       "module (self_import); templates print the sets through ordering filters only")
+    ix, jx = ctx.py, ctx.jinja
+    n_flows = 0
+    for g in ix.all_functions:
+        if g.parent is not None:
+            continue  # (a nested function is part of the function it stands in: it reads that function's locals)
+        fn = g.node
+        lc = Locals(fn)
+        held = {a.arg for x in ast.walk(fn) if isinstance(x, (ast.FunctionDef, ast.AsyncFunctionDef, ast.Lambda))
+                for a in [*x.args.posonlyargs, *x.args.args, *x.args.kwonlyargs] if a.arg in _IMPORT_SLOTS}
+
+        def lines(e: "ast.AST | None", depth: int = 0) -> bool:
+            """e is a collection of import lines"""
+            if e is None or depth > 6:
+                return False
+            if isinstance(e, ast.Name):
+                return e.id in held
+            if isinstance(e, ast.Attribute):
+                return e.attr in _IMPORT_SLOTS
+            if isinstance(e, ast.Call):
+                last = call_name(e).rsplit(".", 1)[-1]
+                if last in _IMPORT_SOURCES:
+                    return True
+                if last in _SAME_LINES or last in _NARROWING_CALLS:
+                    recv = [e.func.value] if isinstance(e.func, ast.Attribute) else []
+                    return any(lines(a.value if isinstance(a, ast.Starred) else a, depth + 1) for a in [*recv, *e.args])
+                return False
+            if isinstance(e, ast.BinOp):
+                return lines(e.left, depth + 1) or (isinstance(e.op, (ast.BitOr, ast.BitAnd, ast.BitXor)) and lines(e.right, depth + 1))
+            if isinstance(e, ast.IfExp):
+                return lines(e.body, depth + 1) or lines(e.orelse, depth + 1)
+            if isinstance(e, ast.BoolOp):
+                return any(lines(v, depth + 1) for v in e.values)
+            if isinstance(e, (ast.SetComp, ast.ListComp, ast.GeneratorExp)):
+                return isinstance(e.elt, ast.Name) and any(lines(c.iter, depth + 1) and isinstance(c.target, ast.Name) and c.target.id == e.elt.id
+                                                           for c in e.generators)
+            if isinstance(e, (ast.Set, ast.List, ast.Tuple)):
+                return any(isinstance(x, ast.Starred) and lines(x.value, depth + 1) for x in e.elts)
+            return False
+
+        for _ in range(4):  # locals made from import lines, or that import lines are added to
+            more = {n for n, ds in lc.defs.items() if n not in held and any(not k.startswith("for") and lines(v) for k, _, v in ds)}
+            more |= {r for attr in ("update", "extend") for r, c_ in receivers(fn, attr) if r.isidentifier() and r not in held
+                     and any(lines(a) for a in c_.args)}
+            if not more:
+                break
+            held |= more
+        if not (held or any(isinstance(x, ast.Call) and call_name(x).rsplit(".", 1)[-1] in _IMPORT_SOURCES for x in ast.walk(fn))
+                or any(isinstance(x, ast.Attribute) and x.attr in _IMPORT_SLOTS for x in ast.walk(fn))):
+            continue
+        n_flows += 1
+        ln = local_names(fn)
+
+        def own_module_only(tests: list[ast.AST]) -> bool:
+            """every condition the decision consists of is a test against the host's own module"""
+            atoms = [a for t in tests for a in bool_atoms(t)]
+            return bool(atoms) and all(_OWN_MODULE in a for a in atoms)
+
+        lost: list[tuple[ast.AST, str]] = []
+        for x in ast.walk(fn):
+            if isinstance(x, ast.BinOp) and isinstance(x.op, (ast.Sub, ast.BitAnd, ast.BitXor)) and \
+                    (lines(x.left) or (not isinstance(x.op, ast.Sub) and lines(x.right))):
+                lost.append((x, "difference"))
+            elif isinstance(x, ast.AugAssign) and isinstance(x.op, (ast.Sub, ast.BitAnd, ast.BitXor)) and lines(x.target):
+                lost.append((x, "difference"))
+            elif isinstance(x, ast.Call) and isinstance(x.func, ast.Attribute) and x.func.attr in _NARROWING_CALLS and lines(x.func.value):
+                lost.append((x, x.func.attr))
+            elif isinstance(x, ast.Call) and call_name(x) in ("filter", "itertools.filterfalse", "filterfalse") and len(x.args) == 2 and lines(x.args[1]):
+                if not (isinstance(x.args[0], ast.Lambda) and own_module_only([x.args[0].body])):
+                    lost.append((x, "filter"))
+            elif isinstance(x, (ast.SetComp, ast.ListComp, ast.GeneratorExp, ast.DictComp)):
+                for c in x.generators:
+                    if lines(c.iter) and c.ifs and not own_module_only(list(c.ifs)):
+                        lost.append((x, "comprehension-filter"))
+            elif isinstance(x, (ast.For, ast.AsyncFor)) and lines(x.iter) and isinstance(x.target, ast.Name):
+                el = x.target.id
+                for t in [y for b_ in x.body for y in ast.walk(b_) if isinstance(y, ast.If) and el in names_in(y.test)]:
+                    inner = [z for b_ in [*t.body, *t.orelse] for z in ast.walk(b_)]
+                    selects = any(isinstance(z, ast.Continue) for z in inner) or any(
+                        isinstance(z, ast.Call) and isinstance(z.func, ast.Attribute) and z.func.attr in ("add", "append") and
+                        any(isinstance(a, ast.Name) and a.id == el for a in z.args) for z in inner)
+                    if selects and not own_module_only([t.test]):
+                        lost.append((t, "loop-filter"))
+        for x, how in lost:
+            rep.fail("R01.13", f"{short(g)}::{how}->{anon(x, ln)[:70]}",
+                     "import lines that a property's get_imports / get_lazy_imports contributed are removed on their way to the host module by "
+                     "something other than the test against the host's own module: a name the generated code uses is no longer imported "
+                     "(NameError / ImportError in the generated module)", where(g, x), lhs=norm(x)[:120],
+                     rhs=f"import lines only collected; dropped only by a test against {_OWN_MODULE}")
+        if not lost:
+            rep.check(True, "R01.13", f"{short(g)}::import-lines-kept", "", where(g, fn))
+    rep.floor("functions_handling_import_lines", n_flows, 6)
+
+    n_loops = 0
+    for tn_, ti_ in sorted(jx.templates.items()):
+        for lp in ti_.tree.find_all(nodes.For):
+            flt = [x for x in [lp.iter, *lp.iter.find_all(nodes.Filter)] if isinstance(x, nodes.Filter)]
+            base = lp.iter
+            while isinstance(base, nodes.Filter) and base.node is not None:
+                base = base.node
+            if not (isinstance(base, nodes.Getattr) and base.attr in _IMPORT_SLOTS):
+                continue
+            n_loops += 1
+            bad = sorted({x.name for x in flt if x.name not in _ORDER_ONLY}) + (["loop filter"] if lp.test is not None else [])
+            rep.check(not bad, "R01.13", f"{tn_}::for {_domain(lp.iter)}::all-lines-printed",
+                      f"the loop that prints the import lines of the host leaves some out ({bad})", where=f"{PKG}/templates/{tn_}:{lp.lineno}",
+                      lhs=expr_text(lp.iter), rhs="ordering filters only, no loop filter")
+    rep.floor("import_line_loops", n_loops, 3)
 
 
 # ---- R01.4, parameter lists ------------------------------------------------------------------------------------------------------------
